@@ -1,7 +1,7 @@
 (* C04 — Version-1 tokens migrate to version 2 without losing meaning.
    Only statements; proofs in Proofs/Migrate.v.  The shadow schemas (what a v1
    payload is decoded into) and the v2 schemas are generated from the code. *)
-From JWT Require Import Base.Codec Model.Claims Model.Migrate Proofs.Migrate.
+From JWT Require Import Base.Codec Base.B64 Model.Claims Model.Migrate Model.Decode Model.Pipeline Proofs.Codec Proofs.Migrate Proofs.CrossDecode Proofs.MigrateCross Proofs.PipelineV1.
 Open Scope string_scope.
 Open Scope Z_scope.
 
@@ -79,6 +79,96 @@ Theorem C04_migrate_typed : forall k st s,
   shadow_of k = Some st -> has_type st s = true -> has_type (schema_of k) (migrate k s) = true.
 Proof. exact migrate_typed. Qed.
 Print Assumptions C04_migrate_typed.
+
+(* ---------------------------------------------------------------------------
+   FROM THE VERSION-1 ENCODER TO THE VERSION-2 CLAIMS.  The theorems above speak of the
+   shadow value the payload was decoded into.  These speak of the value the version-1
+   library ENCODED: [sch1_of k] is the schema of the v1compat claims type, [shadow_of k]
+   the schema of the struct the v2 decoder reads it with - two different Go types, both
+   schemas generated from the code on every run.  [rd reader writer] (decidable, Proofs/
+   CrossDecode.v) relates them: the reader's members are found in the writer by exact JSON
+   name (and Go's case-folding fallback cannot pick another one), member types are equal,
+   or structs / lists / pointers of related types, or an integer read as a sampling rate,
+   or a comma string read as a network list. *)
+Theorem C04_schemas_related : forall k st, shadow_of k = Some st ->
+  rd st (sch1_of k) = true /\ pre_ok st (preset_v1 k) = true.
+Proof. intros k st H. destruct (rd_generated k st H) as (H1 & H2 & _). now split. Qed.
+Print Assumptions C04_schemas_related.
+
+(* the general fact (any reader, writer, preset): decoding what the writer encoded succeeds
+   and agrees with the written value ([ag]: member by member - a member the writer lacks or
+   omitted as empty keeps the preset -, element by element, up to canon at equal-typed leaves) *)
+Theorem C04_cross_decode : forall s t v0 v j,
+  rd s t = true -> pre_ok s v0 = true -> W t v = true -> enc t v = Some j ->
+  exists w, dec s j v0 = Some w /\ ag s t v0 w v.
+Proof. intros s. exact (cross_decode s). Qed.
+Print Assumptions C04_cross_decode.
+
+(* every v1 claims value of the four migratable kinds: the v2 loader accepts what the v1 encoder wrote *)
+Theorem C04_v1_payload_loads : forall k st c1 j,
+  shadow_of k = Some st ->
+  has_type (sch1_of k) c1 = true -> scopes_ok (sch1_of k) c1 = true -> enc (sch1_of k) c1 = Some j ->
+  exists w, dec st j (preset_v1 k) = Some w /\ ag st (sch1_of k) (preset_v1 k) w c1 /\
+            load_v1 k j = Some (migrate k w).
+Proof.
+  intros k st c1 j Hs Ht Hsc He. destruct (v1_reaches_shadow k st c1 j Hs Ht Hsc He) as [w [Hd [Ha _]]].
+  exists w. repeat split; try assumption. unfold load_v1. now rewrite Hs, Hd.
+Qed.
+Print Assumptions C04_v1_payload_loads.
+
+(* ... and every field of the mapping table arrives: [wget] walks the path in the WRITER's value.
+   r = None: the v1 type has no such member (subs / data limits): the v2 field is the preset (-1);
+   r = Some (omitempty, type, x1) with x1 empty and omitempty: not in the payload, the v2 field is the preset;
+   otherwise the v2 field agrees with the v1 field x1 *)
+Theorem C04_v1_field_reaches_v2 : forall k st c1 j p2 p1,
+  shadow_of k = Some st ->
+  has_type (sch1_of k) c1 = true -> scopes_ok (sch1_of k) c1 = true -> enc (sch1_of k) c1 = Some j ->
+  In (p2, p1) (expected_copies k) ->
+  exists d, load_v1 k j = Some d /\
+  exists x2 x0 sty r,
+    getp (schema_of k) p2 d = Some x2 /\ getp st p1 (preset_v1 k) = Some x0 /\ getp_ty st p1 = Some sty /\
+    wget 8 (sch1_of k) p1 c1 = Some r /\
+    (wty 8 (sch1_of k) p1 = Some None -> r = None) /\
+    match r with
+    | None => x2 = x0
+    | Some (o, tq, x1) => if o && is_empty x1 then x2 = x0 else ag sty tq x0 x2 x1
+    end.
+Proof. exact v1_field_reaches_v2. Qed.
+Print Assumptions C04_v1_field_reaches_v2.
+
+(* AT TOKEN LEVEL: the text the version-1 encoder writes - v1 header {"typ":"jwt","alg":"ed25519"}, the payload its
+   claims type marshals, the signature over the PAYLOAD segment (concrete base64url, concrete dot structure) - is
+   accepted by the version-2 decoder whose JSON-level steps are the codec on the generated schemas: the identifier and
+   the issuer are read out of the v1 payload (cross decode), the kind is the v1 top-level type, the version reported is
+   1, the signature is checked over the payload segment under that issuer, and the claims loaded are the migration of
+   the shadow value that agrees with the encoded value.  Abstract: the JSON text layer, Ed25519, the key-role test. *)
+Theorem C04_v1_token_accepted : forall (jparse : string -> option json) (jprint : json -> string)
+    (sign : string -> string) (verify : string -> string -> string -> bool) (role_of : string -> role)
+    k st c1 j issuer,
+  (forall x, jparse (jprint x) = Some x) ->
+  shadow_of k = Some st ->
+  has_type (sch1_of k) c1 = true -> scopes_ok (sch1_of k) c1 = true ->
+  getp (sch1_of k) ["type"] c1 = Some (VStr (kind_name k)) ->
+  getp (sch1_of k) ["iss"] c1 = Some (VStr issuer) -> issuer <> "" ->
+  enc (sch1_of k) c1 = Some j ->
+  (forall text, verify issuer text (sign text) = true) ->
+  decode_role_ok (expected_prefixes k) (role_of issuer) = true ->
+  exists a w,
+    p_decode jparse verify role_of (v1_token_of jprint sign j) = Some a /\
+    a_kind a = k /\ a_iss a = issuer /\ a_layout a = LV1 /\ a_version a = 1 /\
+    dec st j (preset_v1 k) = Some w /\ ag st (sch1_of k) (preset_v1 k) w c1 /\
+    p_loaded jparse (jprint j) k 1 = Some (migrate k w).
+Proof.
+  intros jparse jprint sign verify role_of k st c1 j issuer Hjp.
+  exact (v1_token_accepted jparse jprint Hjp sign verify role_of k st c1 j issuer).
+Qed.
+Print Assumptions C04_v1_token_accepted.
+
+(* the hypotheses are satisfiable, and the subs / data limits are members the v1 user type does not have *)
+Example C04_cross_nonvacuous :
+  (exists c1 j, has_type (sch1_of KUser) c1 = true /\ scopes_ok (sch1_of KUser) c1 = true /\ enc (sch1_of KUser) c1 = Some j) /\
+  map (wty 8 sch1_user) [["nats"; "subs"]; ["nats"; "data"]] = [Some None; Some None].
+Proof. split; [exists (zero_val sch1_user); eexists; repeat split; vm_compute; reflexivity | exact legacy_absent]. Qed.
 
 (* absent legacy limits read as unlimited: a struct member that the payload does not
    mention keeps the preset, and the presets of the legacy limits are -1 *)
